@@ -213,3 +213,4 @@ Proof.
     rewrite forallb_forall in Heqb. specialize (Heqb r Hsn).
     apply nmem_In in Hfl. rewrite Hfl in Heqb. cbn in Heqb. fold (cancelled s r) in Heqb. congruence.
 Qed.
+
